@@ -330,13 +330,29 @@ func runC09(r *mon.Run) {
 			if reads >= 8 {
 				w.Class("c09:drbg:reads>=8")
 			}
+			// the reader's caller owns the buffer it passes: in every other case ONE buffer is used
+			// for all reads and wiped / overwritten by the caller after each (what a rejection
+			// sampler that cleans up after itself does)
+			shared := make([]byte, 32, 32+i%3*16)
 			for j := 0; j < reads; j++ {
 				buf := make([]byte, 32)
+				if i%2 == 1 {
+					buf = shared
+					w.Class("c09:drbg:buffer-reused-and-wiped")
+				}
 				nn, err := rd.Read(buf)
 				want := g.Next()
 				if err != nil || nn != 32 || !bytes.Equal(buf, want) {
-					w.Fail("c09/drbg", fmt.Sprintf("deterministic generator read #%d = %x, RFC 6979 candidate T_%d = %x", j+1, buf, j+1, want), "d", hb(d), "e", hb(e))
+					w.Fail("c09/drbg", fmt.Sprintf("deterministic generator read #%d = %x, RFC 6979 candidate T_%d = %x (buffer reused and wiped by the caller between reads: %v)", j+1, buf, j+1, want, i%2 == 1), "d", hb(d), "e", hb(e))
 					break
+				}
+				switch (i / 2) % 3 {
+				case 0:
+					copy(buf, make([]byte, 32))
+				case 1:
+					copy(buf, bytes.Repeat([]byte{0xff}, 32))
+				default:
+					copy(buf, rng.Bytes(32))
 				}
 			}
 			if i%10 == 0 {
